@@ -29,6 +29,7 @@ def pool_batch(acc, batch, prop=None, bound=1):
         acc.extra["choice_points"] += stats["choice_points"]
         acc.extra["transitions"] += stats["choice_points"]
         acc.extra["pruned_revisits"] += stats["pruned"]
+        acc.extra["replay_divergences"] += stats.get("divergences", 0)
         acc.sets["states"] |= {hash((json.dumps(sc, sort_keys=True, default=str), h)) for h in stats["states"]}
         acc.nontrivial.add(hash(json.dumps(sc, sort_keys=True, default=str)))
         if len(acc.samples) < 3:
@@ -100,6 +101,14 @@ def run_pool(ctx, module, prop):
     ctx.pmap(module, "pool_batch", small, chunk=2, prop=prop, bound=bound)
     if big:
         ctx.pmap(module, "pool_batch", big, chunk=2, prop=prop, bound=1)
+    if ctx.acc.extra["replay_divergences"]:
+        n = ctx.acc.extra["replay_divergences"]
+        if not ctx.acc.violations:
+            raise RuntimeError(f"{n} replay divergences and no violation found: the code under test is not a function of the schedule (address-ordered set?); "
+                               "the exploration cannot be called exhaustive")
+        print(f"NOTE: {n} branches could not be replayed deterministically (the code under test depends on something outside the schedule, "
+              "e.g. the iteration order of a set of Task objects); violations below come from the executions that could be completed")
+        ctx.caps.append(f"{n} replay divergences: branches skipped")
     # ---- pruning validated against unpruned exploration on a slice of the scenarios (small ones: unpruned is exponential)
     pv = [s for s in small if len(s["tasks"]) <= 2 and s.get("via") != "multi"][:: (6 if quick else 2)]
     ctx.pmap(module, "prune_validation_batch", pv, chunk=1, prop=prop, bound=bound if quick else 1)
@@ -184,7 +193,12 @@ def replay_pool(case, prop):
     if sc.get("clients"):
         for c in sc["clients"]:
             c["ops"] = [tuple(o[:1]) + ((o[1].encode("latin1"),) if o[0] == "raw" and isinstance(o[1], str) else tuple(o[1:])) for o in c["ops"]]
-    ex, points = poolx.run_one(sc, worker_scratch("pool"), list(case["choices"]))
+    try:
+        ex, points = poolx.run_one(sc, worker_scratch("pool"), list(case["choices"]))
+    except poolx.ReplayDivergence as e:
+        a = Acc()
+        a.violation(dict(what="recorded schedule cannot be replayed: the code under test is not a function of the schedule"), case, observed=str(e))
+        return a.violations
     try:
         vs = ex.violations + ex.final_checks()
     finally:
